@@ -10,7 +10,7 @@
 From Coq Require Import List NArith Arith Bool.
 From Verif.Common Require Import Prefix.
 From Coq Require Import Permutation.
-From Verif.C43 Require Import Model Spec Proofs Final FinalProofs Blackhole MgrProofs FlushPerm Reflag Peer PoolUpd Chain Fresh FreshOps NR Inv Link Link2 Link3 Link4 Link5 Link6 EndToEnd Dual Order.
+From Verif.C43 Require Import Model Spec Proofs Final FinalProofs Blackhole MgrProofs FlushPerm Reflag Peer PoolUpd Chain Fresh FreshOps NR Inv Link Link2 Link3 Link4 Link5 Link6 EndToEnd Dual ModelSpec Order.
 Import ListNotations.
 Open Scope N_scope.
 
@@ -152,16 +152,16 @@ Theorem c43_reflag_complete_pool : forall f s c v k po n,
 Proof. exact pool_update_complete. Qed.
 Print Assumptions c43_reflag_complete_pool.
 
-(* (4) ORDER INDEPENDENCE, PARTIAL: along EVERY history of node and pool updates -- any order, reverts,
+(* (4) (superseded by (5)-(6), kept because it holds for EVERY start state, not only reachable ones) along EVERY history of node and pool updates -- any order, reverts,
        deletions, the local node gaining / losing its IPv4 subnet, peers moving between subnets, pool modes
        flipping -- a sent remote block / borrowed-address route stays exactly what flush() computes from the
        current trie and node table, i.e. the result does not depend on the order in which those updates arrived
        (repaired variant; [good] = dirty set empty, k's own entry is a sent block entry of remote node n indexed in
        nodeRoutes, and the route is up to date; [op_ok]: node or pool update, no node takes k as its address). *)
-Theorem c43_order_independent_partial : forall ops s k n, wfp 32 k -> k <> host32 0 -> n <> me ->
+Theorem c43_node_pool_history_keeps_fresh : forall ops s k n, wfp 32 k -> k <> host32 0 -> n <> me ->
   good s k n -> Forall (op_ok k) ops -> good (fold_left (apply_op true) ops s) k n.
 Proof. exact node_pool_history_keeps_fresh. Qed.
-Print Assumptions c43_order_independent_partial.
+Print Assumptions c43_node_pool_history_keeps_fresh.
 
 Example c43_good_reachable : good (run true hist_plain) w_block 1.
 Proof.
@@ -253,6 +253,25 @@ Theorem c43_order_independent_dual : forall (BK4 BK6 : prefix -> Prop),
   /\ is_function_of_state (snd (run2 true ops)) (state_of (ops_of proj6 ops)).
 Proof. exact order_independent_dual. Qed.
 Print Assumptions c43_order_independent_dual.
+
+(* (9) MODEL MEETS SPEC, PARTIAL: the clause of the specification oracle [ok_kernel] about remote blocks / borrowed
+       addresses (the kernel routes the managers program for each of them, read off the whole kernel-route list, are
+       exactly the demanded ones) holds of EVERY run of the model whose final state the datastore admits.
+       Missing for the full [ok_kernel (state_of ops) (kernel ... (s_out (run true ops))) = true]: the clause
+       "the blackholes are exactly the demanded ones" needs (a) "no other CIDR of the route set carries LOCAL_WORKLOAD
+       without a local workload", i.e. freshness of pure pool CIDR routes (outside [fset], see (5)/(6)), and (b) the
+       converse direction of c43_history_blackholes_local_blocks on the list level.  The lemma that is missing is:
+       forall k, ri_pool (entry d k) <> None -> block_at d k = None -> wep_at d k = 0 -> hosts_at d k = [] ->
+       r_types of the held route of k = 0 (pool-only CIDRs never turn into block routes). *)
+Theorem c43_model_meets_spec_partial : forall (BK : prefix -> Prop),
+  (forall a b x, BK a -> BK b -> covers 32 a x = true -> covers 32 b x = true -> a = b) ->
+  forall ops, Forall (hop_ok BK) ops -> Forall dop_ok ops ->
+  let d := state_of ops in
+  valid_state d = true ->
+  forallb (fun e => list_eqb kroute_eqb (routes_for (kernel (peers_of d) (s_out (run true ops))) (fst e))
+                                        (kroute_of (fst e) (demanded d (fst e) (snd e)))) (remote_dsts d) = true.
+Proof. exact model_meets_spec_remote. Qed.
+Print Assumptions c43_model_meets_spec_partial.
 
 (* the hypotheses are satisfiable by a history with reverts, a borrowed address, a local workload and the local
    node losing and regaining its IPv4 subnet; and on it the theorem's conclusion is the direct route of (1) *)
